@@ -251,7 +251,7 @@ def run_cases(pid, tag, preamble, case_terms, checker, shard=400, timeout=900):
         inner = m.group(1).strip()[1:-1].strip()
         if inner:
             for tok in inner.split(';'):
-                fails.append(k * shard + int(tok.strip()))
+                fails.append(k * shard + int(tok.strip().replace('%nat', '')))
     return fails
 
 
